@@ -16,7 +16,7 @@ Here is a semantic property that virocon is supposed to satisfy:
 
 Your task: make a change to the library source (under virocon/ in your worktree) that BREAKS this property while the code still imports/compiles and the existing test suite still passes. The change should look like a realistic programming mistake or regression (a plausible edit a maintainer could make during a refactoring or 'optimisation'), not sabotage with an obvious marker. Most importantly it should need something specific to manifest - a particular unusual input or configuration, a particular parameter region, a multi-step sequence of operations, a particular option combination, or two cooperating sites that each look fine alone - rather than being exposed at once by ordinary use. Keep it small (a few lines). Do NOT edit tests.
 
-Then write a demonstration: a small pytest file or script that FAILS with your change and PASSES on the unchanged code (check both: `git stash` / `git stash pop`, or `git diff > patch; git checkout -- .; run; git apply patch`).
+Then write a demonstration: a small pytest file or script that FAILS with your change and PASSES on the unchanged code (check both with `git diff > /tmp/seed_out/my.patch; git checkout -- .; run; git apply /tmp/seed_out/my.patch` - do NOT use `git stash`: the stash is shared between worktrees and other agents are working in parallel).
 
 Then run the existing test suite in the worktree to confirm it still passes with your change:
   cd /tmp/seed_{pid}{variant} && /venv/bin/python -m pytest -q -p no:cacheprovider --timeout=900 -n 4 --deselect tests/test_workflows.py::test_v_hs_hd_contour 2>&1 | tail -5
